@@ -379,9 +379,9 @@ def classify(E, ta, tb, x, y, w, slot):
     word = E.handler_word_atoms()
     if w[0] in ('ID', 'GETPROP', 'SETPROP') and (
             x not in word or y not in word):
-        return ('identifier character outside \\w at the boundary '
-                '(required_space is narrower than the lexer\'s '
-                'IdentifierPart)')
+        return ('%s|%s|%s: identifier character outside \\w at the '
+                'boundary (required_space is narrower than the lexer\'s '
+                'IdentifierPart)' % (desc(ta), slot, desc(tb)))
     if ta == ('cls', 'REGEX'):
         return 'REGEX followed by a word: the flags swallow it'
     if tb == ('cls', 'REGEX') and w[0] in ('LINE_COMMENT',
